@@ -264,6 +264,41 @@ def _skipping_path(fx, key, tr, family, field):
     return None
 
 
+def _family_with_helpers(ctx, trait, family):
+    """the family of recursive calls, extended by the helpers of the trait's crate that make such a call on one of their own
+    parameters (`bind_operand(term, k, max_id)` = `term.bind(k', max_id)`), three levels"""
+    def build():
+        fx = ctx.fx
+        crate = trait.split("::")[0]
+        fam = set(family)
+        for _ in range(3):
+            grew = False
+            for k, g in fx.fns.items():
+                if g["crate"] != crate or "{" in k or k.startswith("<") or not g.get("name") or g["name"] in fam or g["argc"] == 0:
+                    continue
+                bodies = [g] + [h for hk, h in fx.fns.items() if (h.get("parent") or "").startswith(k) and "{promoted" not in hk]
+                hit = False
+                for h in bodies[:1]:
+                    hfn = None
+                    for b in h["blocks"]:
+                        t = b["term"]
+                        if t["k"] != "call" or t.get("callee_name") not in fam or (t.get("callee") or "").split("::")[0] not in fx.crates:
+                            continue
+                        hfn = hfn or Fn(h)
+                        hflow = Flow(hfn, extra_pass=lambda t_: t_.get("callee_name") in STD_PASS and (t_.get("callee") or "").startswith(("core::", "alloc::", "std::")))
+                        for a in t["args"][:1]:
+                            r = op_root(a)
+                            if r is not None and any(o[0] == "arg" and 1 <= o[1] <= h["argc"] for o in hflow.origins(r, ())):
+                                hit = True
+                if hit:
+                    fam.add(g["name"])
+                    grew = True
+            if not grew:
+                break
+        return fam
+    return ctx.memo("trav_family:" + trait, build)
+
+
 def rule_trav(traits=None, name="R-TRAV"):
     def rule(ctx):
         fx = ctx.fx
@@ -294,6 +329,7 @@ def rule_trav(traits=None, name="R-TRAV"):
             if tr == "scc_printer::types::Print" and imp["crate"] not in PRINT_CRATES:
                 continue
             methods, family = TRAV_TRAITS[tr]
+            family = _family_with_helpers(ctx, tr, family)
             mkeys = [m["key"] for m in imp["methods"] if m["name"] in methods and m["key"] in fx.fns]
             if not mkeys:
                 continue
